@@ -13,6 +13,8 @@ STANDING_ASSUMPTIONS = [
     "termination is not proved by Kani (unwinding assertions only)",
 ]
 
+SMALL_PAGES = "--cfg kahflane_turdb_verif_small_pages"
+
 UNITS = {
     "varint": {
         "src": "src/encoding/varint.rs",
@@ -156,6 +158,27 @@ UNITS = {
             "pub fn value_len_at(&self, index: usize) -> Result<usize>",
         ],
     },
+    "simd_scan": {
+        "src": "src/btree/simd_scan.rs",
+        "anchors": [
+            "pub fn simd_prefix_search_scalar(",
+            "pub fn find_key_simd(page_data: &[u8], key: &[u8], cell_count: usize) -> SearchResult",
+            "pub unsafe fn simd_prefix_search_avx2(",
+        ],
+    },
+    "interior": {
+        "src": "src/btree/interior.rs",
+        "anchors": [
+            "pub fn from_page(data: &'a [u8]) -> Result<Self>",
+            "pub fn slot_at(&self, index: usize) -> Result<&InteriorSlot>",
+            "pub fn key_at(&self, index: usize) -> Result<&'a [u8]>",
+            "pub fn find_child(&self, key: &[u8]) -> Result<(u32, Option<usize>)>",
+        ],
+    },
+    "view": {
+        "src": "src/records/view.rs",
+        "anchors": ["pub fn new(data: &'a [u8], schema: &'a Schema) -> Result<Self>", "pub fn get_int8(&self, col_idx: usize) -> Result<i64>"],
+    },
 }
 
 PROPS = {
@@ -253,8 +276,16 @@ PROPS = {
         "level_text": "Proof (complete over the input bytes) that the fixed-size decoders return a value or an error and never panic, overflow or read out of bounds: decode_varint on every byte string; the three file-header decoders on any 0..160 bytes; PageHeader::from_bytes / validate_page on any bytes of any length up to a page; LeafNode::{from_page, slot_at, key_at, value_at, value_len_at} on ANY 16 KiB of page bytes and any index; decode_key for every non-recursive prefix on any 0..24 bytes; RowSerde::deserialize_value for every fixed-width discriminant. Partial: JSONB, array, catalog, WAL-frame and HNSW decoders, RecordView getters, recursive decode_key arms and opening corrupted database files are not covered.",
         "level_note": "Partial. Open known finding: slot_at slices beyond the page when cell_count is corrupted. Recursive/variable-length decoders are bounded stand-ins where present. File-system level clause (opening a corrupted database) is outside this technique.",
         "technique": "Kani Hoare triples over fully symbolic input bytes (and symbolic length / index) on the real decoders; Kani's bounds, overflow and unwrap checks are the postcondition",
-        "kani_units": ["varint", "key", "row_serde", "headers", "page", "leaf"],
+        "kani_units": ["varint", "key", "row_serde", "headers", "page", "leaf", "interior", "view"],
         "harness_timeout": 900,
         "explanation": "",
+    },
+    "C30": {
+        "claimed": False,
+        "level": "other",
+        "level_text": "bounded", "level_note": "", "technique": "Kani bounded",
+        "kani_units": ["simd_scan"],
+        "rustflags": "--cfg kahflane_turdb_verif_small_pages",
+        "explanation": "bounded",
     },
 }
